@@ -4,6 +4,7 @@ import (
 	"fmt"
 	"go/constant"
 	"go/token"
+	"go/types"
 	"path/filepath"
 	"sort"
 	"strings"
@@ -377,6 +378,8 @@ func c20r1(c *Check) {
 	}
 	checkStringSwitchMatcher(c, c.P.Func("route", "*baseRoute", "update"), "route.baseRoute.update (modRoute)", true)
 	checkStringSwitchMatcher(c, c.P.Func("destination", "*Destination", "Update"), "destination.Destination.Update (modDest)", true)
+	checkUpdateFlag(c, c.P.Func("route", "*baseRoute", "update"), "route.baseRoute.update (modRoute)")
+	checkUpdateFlag(c, c.P.Func("destination", "*Destination", "Update"), "destination.Destination.Update (modDest)")
 	// carbon routes use readRouteOpts too
 	checkRouteOptsOrder(c, c.P.Func("imperatives", "", "readAddRoute"), tok)
 	checkRouteOptsOrder(c, c.P.Func("imperatives", "", "readAddRouteConsistentHashing"), tok)
@@ -405,6 +408,132 @@ func checkStringSwitchMatcher(c *Check, fn *ssa.Function, label string, keepCurr
 			c.Judge(okF, label+" "+opt+" not given → current "+want, c.At(w.call), "an option that is not mentioned keeps the value of field "+want+" of the current filter", fmt.Sprintf("when %s is not given the new filter takes it from fields %v / %v instead of the current %s: updating one option silently changes another", opt, fields, other, want))
 		}
 	}
+}
+
+// checkUpdateFlag: in an update function (modRoute / modDest), the new filter is built and installed
+// under a flag; that flag must become true for every one of the six filter options and, once true,
+// stay true for the rest of the option loop (it may not be recomputed per option).
+func checkUpdateFlag(c *Check, fn *ssa.Function, label string) {
+	var call *ssa.Call
+	allInstrs(fn, func(in ssa.Instruction) {
+		if x, ok := in.(*ssa.Call); ok && calleeName(x.Common()) == modPath+"/matcher.New" {
+			call = x
+		}
+	})
+	if call == nil {
+		anchorFail("%s: no call to matcher.New", FuncName(fn))
+	}
+	key := label + " a given filter option always rebuilds the filter"
+	// the flag: a non-error condition whose true edge controls the call
+	var flag ssa.Value
+	for _, b := range fn.Blocks {
+		ifi, ok := b.Instrs[len(b.Instrs)-1].(*ssa.If)
+		if !ok {
+			continue
+		}
+		if _, _, isErr := errTest(ifi.Cond); isErr {
+			continue
+		}
+		if edgeDominates(b, b.Succs[0], call.Block()) && !edgeDominates(b, b.Succs[1], call.Block()) {
+			if types.Identical(ifi.Cond.Type().Underlying(), types.Typ[types.Bool]) {
+				flag = ifi.Cond
+			}
+		}
+	}
+	if flag == nil {
+		c.Hold(key, c.At(call), "the filter is rebuilt unconditionally")
+		return
+	}
+	g := fn
+	if hc, idx, ok := helperResult(flag); ok {
+		// the flag is computed by a helper: look at what the helper returns
+		g = hc.Call.StaticCallee()
+		var rets []ssa.Value
+		allInstrs(g, func(in ssa.Instruction) {
+			if r, ok := in.(*ssa.Return); ok && idx < len(r.Results) {
+				rets = append(rets, r.Results[idx])
+			}
+		})
+		flag = nil
+		for _, r := range rets {
+			if k, ok := r.(*ssa.Const); ok && k.Value != nil && !constant.BoolVal(k.Value) {
+				continue // error returns
+			}
+			flag = r
+		}
+		if flag == nil {
+			c.Violate(key, c.At(call), "the helper that decides whether the filter changes never reports a change")
+			return
+		}
+	}
+	sl := newSlicer(c.P, g)
+	loops := loopsOf(g)
+	seen := map[ssa.Value]bool{}
+	trueOpts := map[string]bool{}
+	bad := ""
+	var walk func(v ssa.Value, pred *ssa.BasicBlock)
+	walk = func(v ssa.Value, pred *ssa.BasicBlock) {
+		switch x := v.(type) {
+		case *ssa.Phi:
+			if seen[v] {
+				return
+			}
+			seen[v] = true
+			for i, e := range x.Edges {
+				walk(e, x.Block().Preds[i])
+			}
+		case *ssa.Const:
+			if x.Value == nil || x.Value.Kind() != constant.Bool {
+				bad = "the flag is not a boolean constant on some path"
+				return
+			}
+			if constant.BoolVal(x.Value) {
+				if pred != nil {
+					for _, gname := range sl.guardOf(pred) {
+						trueOpts[strings.TrimPrefix(gname, "str:")] = true
+					}
+				}
+			} else if pred != nil && innermostLoop(loops, pred) != nil {
+				bad = "the flag is reset to false inside the option loop (" + c.P.InstrPos(pred.Instrs[len(pred.Instrs)-1]) + ")"
+			}
+		case *ssa.UnOp:
+			// a local that is assigned in several places (address taken, or spilled because of `defer`)
+			if al, ok := x.X.(*ssa.Alloc); ok && x.Op == token.MUL {
+				if seen[v] {
+					return
+				}
+				seen[v] = true
+				n := 0
+				for _, r := range *al.Referrers() {
+					if st, ok := r.(*ssa.Store); ok && st.Addr == ssa.Value(al) {
+						n++
+						walk(st.Val, st.Block())
+					}
+				}
+				if n > 0 {
+					return
+				}
+			}
+			bad = "the flag is not a plain boolean variable"
+		default:
+			pos := ""
+			if in, ok := v.(ssa.Instruction); ok {
+				pos = " (" + c.P.InstrPos(in) + ")"
+			}
+			bad = "the flag is recomputed from the option being looked at" + pos + ": with several options in one command the last one visited decides, and Go's map iteration order is random"
+		}
+	}
+	walk(flag, nil)
+	var missing []string
+	for _, o := range matcherOrder {
+		if !trueOpts[o] {
+			missing = append(missing, o)
+		}
+	}
+	if bad == "" && len(missing) > 0 {
+		bad = "giving " + strings.Join(missing, ", ") + " does not set the flag that makes the new filter take effect"
+	}
+	c.Judge(bad == "", key, c.At(call), "set to true under each of the six options and never cleared", bad+" — the command is acknowledged but the old filter stays in force")
 }
 
 func isMatcherOpt(s string) bool {
@@ -480,7 +609,79 @@ func checkReadRouteOpts(c *Check, tok map[string]string) {
 	}
 }
 
+// sectionsAreIndependent: inside the loops over configuration sections, nothing that is handed to a
+// constructor or to the table depends on an earlier section.
+func sectionsAreIndependent(c *Check, fn *ssa.Function, label string) {
+	loops := loopsOf(fn)
+	n, bad, at := 0, "", ssa.Instruction(nil)
+	allInstrs(fn, func(in ssa.Instruction) {
+		call, ok := in.(*ssa.Call)
+		if !ok {
+			return
+		}
+		l := innermostLoop(loops, in.Block())
+		if l == nil {
+			return
+		}
+		name := calleeName(call.Common())
+		if !strings.HasPrefix(name, modPath) && !strings.HasPrefix(name, "("+modPath) && !strings.HasPrefix(name, "(*"+modPath) {
+			return
+		}
+		if strings.Contains(name, "/cfg.") {
+			return
+		}
+		for _, a := range argsOf(call.Common()) {
+			n++
+			if why := loopCarried(c.P, a, l, in); why != "" && bad == "" {
+				bad, at = "an argument of "+short(name)+" depends on an earlier section: "+why, in
+			}
+		}
+	})
+	pos := c.AtFn(fn)
+	if at != nil {
+		pos = c.At(at)
+	}
+	if n == 0 {
+		c.Undecided(label+" sections are independent", pos, "no constructor call inside a section loop found")
+		return
+	}
+	c.Judge(bad == "", label+" sections are independent", pos, fmt.Sprintf("%d constructor arguments inside the section loops, all computed from the current section", n), bad+" — a setting that one section does not mention silently takes the value an earlier section gave it instead of its documented default")
+}
+
 func c20r2(c *Check) {
+	for _, fn := range []string{"InitAggregation", "InitRewrite", "InitRoutes", "InitBlacklist"} {
+		sectionsAreIndependent(c, c.P.Func("cfg", "", fn), "cfg."+fn)
+	}
+	// TOML destination strings reach the option scanner as they are written
+	pd := c.P.Func("imperatives", "", "ParseDestinations")
+	okIn, nSet := true, 0
+	var setAt ssa.Instruction
+	pdLoops := loopsOf(pd)
+	allInstrs(pd, func(in ssa.Instruction) {
+		call, ok := in.(*ssa.Call)
+		if !ok || !strings.HasSuffix(calleeName(call.Common()), "toki.Scanner).SetInput") {
+			return
+		}
+		nSet++
+		setAt = in
+		arg := call.Call.Args[len(call.Call.Args)-1]
+		if tc, ok := arg.(*ssa.Call); ok && calleeName(tc.Common()) == "strings.TrimSpace" {
+			arg = tc.Call.Args[0]
+		}
+		l := innermostLoop(pdLoops, in.Block())
+		if l == nil {
+			okIn = false
+			return
+		}
+		sl, idx, ok := rangeLoopOver(l)
+		if !ok || sl != ssa.Value(pd.Params[0]) || !rangeElem(arg, sl, idx) {
+			okIn = false
+		}
+	})
+	if nSet == 0 {
+		anchorFail("imperatives.ParseDestinations: no Scanner.SetInput call")
+	}
+	c.Judge(okIn, "imperatives.ParseDestinations scans each destination string as written", c.At(setAt), "SetInput(destinationConfigs[i])", "the TOML destination string is rewritten before it is scanned (the command syntax's separator substitution turns a double space into an end-of-destination marker): options after it are silently dropped")
 	// [[aggregation]]
 	ia := c.P.Func("cfg", "", "InitAggregation")
 	toml := map[string][]string{"prefix": {"Prefix"}, "notPrefix": {"NotPrefix"}, "sub": {"Sub", "Substr"}, "notSub": {"NotSub"}, "regex": {"Regex"}, "notRegex": {"NotRegex"}}
@@ -919,14 +1120,38 @@ func c20r4(c *Check) {
 			}
 			return nil
 		},
-		Branch: func(ifi *ssa.If, cond ssa.Value, taken bool) []string {
+		BranchV: func(ifi *ssa.If, cond ssa.Value, taken bool, resolve func(ssa.Value) ssa.Value) []string {
 			cnd, neg := negStrip(cond)
 			if ex, ok := cnd.(*ssa.Extract); ok && ex.Index == 1 {
 				if cl, ok := ex.Tuple.(*ssa.Call); ok && calleeName(cl.Common()) == funcCanonical(ev) {
 					if taken != neg {
+						// the empty name is no variable: this edge cannot be taken for it
+						if s, ok := constString(resolve(cl.Call.Args[0])); ok && s == "" {
+							return []string{"infeasible"}
+						}
 						return []string{"known"}
 					}
 					return []string{"unknown"}
+				}
+			}
+			// tests of an input byte against '{' and '}'
+			if bo, ok := cnd.(*ssa.BinOp); ok && (bo.Op == token.EQL || bo.Op == token.NEQ) {
+				if k, ok := constInt(bo.Y); ok && (k == '{' || k == '}') {
+					isIn := false
+					switch x := bo.X.(type) {
+					case *ssa.Index:
+						isIn = x.X == ssa.Value(inPar)
+					case *ssa.Lookup:
+						isIn = x.X == ssa.Value(inPar)
+					}
+					if isIn {
+						eq := (bo.Op == token.EQL) == (taken != neg)
+						name := map[int64]string{'{': "open", '}': "close"}[k]
+						if eq {
+							return []string{name + ":T"}
+						}
+						return []string{name + ":F"}
+					}
 				}
 			}
 			return nil
@@ -939,6 +1164,12 @@ func c20r4(c *Check) {
 		pa := &paths[i]
 		if pa.End != "stop" {
 			continue
+		}
+		if pa.Has("infeasible") {
+			continue
+		}
+		if pa.Has("known") && pa.Has("open:T") && !pa.Has("close:T") {
+			probs = append(probs, "a name opened with '${' is substituted although no closing '}' follows it: '${HOST.$1}' or '${GRAFANA_NET_ADDR:-x}' is rewritten and leaves a dangling '}': "+pa.String())
 		}
 		if pa.Has("known") {
 			nKnown++
